@@ -818,7 +818,9 @@ def complex_random_crop(
         if not sigma:
             sigma = data_shape / 6  # w, h
         else:
-            if isinstance(sigma, float) or isinstance(sigma, list) and len(sigma) == 1:
+            if isinstance(sigma, list) and len(sigma) == 1:
+                sigma = sigma[0]
+            if isinstance(sigma, float):
                 sigma = [sigma for _ in range(len(crop_shape))]
             elif len(sigma) != len(crop_shape):  # type: ignore
                 raise ValueError(
